@@ -142,7 +142,9 @@ pub fn gen_session(seed: u64, run: u64, thorough: bool) -> Session {
     for u in &open {
         ops.push(PlannedOp::new(Op::ProbeText { uri: u.clone() }));
     }
-    ops.push(PlannedOp::new(Op::Request { id: 9000, method: "glas/syntaxTree".into(), uri: open[0].clone(), pos: [0, 0], extra: json!({}) }));
+    for (k, u) in open.iter().enumerate() {
+        ops.push(PlannedOp::new(Op::Request { id: 9000 + k as i64, method: "glas/syntaxTree".into(), uri: u.clone(), pos: [0, 0], extra: json!({}) }));
+    }
     ops.push(PlannedOp::new(Op::Barrier));
     let mut crashes = Vec::new();
     if rng.chance(1, 4) {
@@ -317,6 +319,23 @@ pub fn check(s: &Session, h: &History, stats: &mut Stats) -> Option<Violation> {
                     detail: format!("after the client went quiet the server holds {:?} for {uri}, the client {:?}", text, want),
                 });
             }
+        }
+    }
+    // (c1') ... and what it ANALYSES is that text too (the document store and the analysis database
+    // are two copies): the syntax tree asked for after quiescence is that of the client's text
+    for p in &s.ops {
+        let Op::Request { id, method, uri, .. } = &p.op else { continue };
+        if *id < 9000 || method != "glas/syntaxTree" {
+            continue;
+        }
+        let (Some(m), Some(r)) = (models.get(uri), resp.get(id).and_then(|v| v.first())) else { continue };
+        let Some(tree) = r.get("result").and_then(|t| t.as_str()) else { continue };
+        if let Some(diff) = crate::c13::tree_differs_from(tree, &m.normalized()) {
+            return Some(Violation {
+                oracle: "converges.analysed_text".into(),
+                kinds: vec!["final_syntax_tree".into()],
+                detail: format!("after the client went quiet the syntax tree of {uri} is not that of the client's text {:?}: {diff}", m.text),
+            });
         }
     }
     // (d) a probe request after quiescence is answered with a result
